@@ -1,8 +1,15 @@
 """Source of MANIFEST.json (bin/mkmanifest writes it).  One entry per claimed property."""
 
-HOOK_COMMITS = ["ed224dc", "bc3b859", "c46a242"]
+HOOK_COMMITS = ["ed224dc", "bc3b859", "c46a242", "76a81b6"]
 
 ENGINES = [
+    {"name": "atomic", "path": "specs/AtomicBaseTime.tla specs/AtomicMC.tla specs/AtomicTrace.tla lib/engines/atomic.py "
+     "harness/src/atomic.rs",
+     "serves_properties": ["C13", "C18"],
+     "kind_free_text": "TLA+ I-spec of AtomicBaseTime at atomic-operation granularity on a view-based release/acquire memory "
+     "model with the orderings as constants (extracted from the real code through hook H4); TLC design MC (RA and SC, "
+     "liveness under reader-only fairness); the real code executed on a simulated RA memory by replay-stepping (edge cover of a "
+     "TLC graph, TLC counterexamples, seeded random schedules x reads-from, parked writers); TLC trace validation (legality + monitors)"},
     {"name": "vt", "path": "specs/VouchedTime.tla specs/VouchedTimeApa.tla specs/VtTrace.tla lib/engines/vt.py harness/src/vt.rs",
      "serves_properties": ["C14"],
      "kind_free_text": "TLA+ window predicate over integers + limb arithmetic; Apalache symbolic check over the full 64-bit range, "
@@ -72,7 +79,40 @@ TLV_NOTE = ("Bounded: all byte strings of <= 4 (5) words over 10 word values (0,
             "Words are compared as 16-bit halves and lengths as 20-bit limbs because TLC integers are 32-bit. The pair-count limit "
             "(> 2^31 pairs) is not exercised. Values that only report a length (never written) are used for the i32::MAX boundaries.")
 
+ATOMIC_NOTE = ("Bounded: thread programs of 2-4 threads with <= 4 calls each; the design MC is exhaustive per program (RA and SC), the "
+               "exploration of the real code is an edge cover of one MC graph plus sampled schedules x reads-from choices. Memory "
+               "model: stores append to modification order (exact while writers are serialised by the lock), no out-of-thin-air / "
+               "load-buffering for relaxed accesses, no sequence wrap-around. Trusts hook H4 (stand-ins pass through to std when "
+               "no scheduler is registered), the harness's memory simulation (every recorded execution is re-checked for legality "
+               "by TLC against the TLA+ memory model; an illegal one is a tool error), TLC.")
+
 CHECKS = {
+    "C13": {
+        "engine": "atomic",
+        "technique": "TLA+ spec on a release/acquire memory model + TLC model checking with orderings extracted from the code; real code replay-stepped on simulated memory, TLC trace validation",
+        "text": "AtomicBaseTime.tla transcribes snapshot / update / try_update one action per atomic operation over a view-based RA memory "
+                "model; the orderings are constants taken from the real code by a probe through hook H4. TLC checks NoTorn, per-thread "
+                "monotonicity, older-ignored, recency (SC and own-thread) for several thread programs under RA and SC, and that weakening "
+                "single orderings breaks NoTorn. The real code is then executed on a simulated RA memory at atomic-step granularity: every "
+                "edge (thread, reads-from) of an MC graph, any TLC counterexample, and thousands of seeded random schedules x reads-from "
+                "choices incl. stale reads; TLC validates each execution for legality and checks the monitors on the real return values "
+                "(the real voucher check panicking on a torn pair is a violation).",
+        "design_ref": "DESIGN.md section 6, C13",
+        "note": ATOMIC_NOTE,
+    },
+    "C18": {
+        "engine": "atomic",
+        "technique": "TLC model checking incl. liveness under reader-only fairness; real code replay-stepped with writers parked at every explored suspension point, TLC trace validation",
+        "text": "Design: in the I-spec a snapshot has no lock action, try_update decides in its first step, SnapshotBound bounds a snapshot's "
+                "loads by the completed sequence stores, and TLC proves reader termination when only reader steps are fair (writers may "
+                "stall forever holding the lock). Real code: in about a third of the explored executions the writers are parked after a "
+                "random number of steps (lock held or not, poisoned or not after a writer died mid-update) and the readers / try_update "
+                "callers are run alone; TLC checks that no snapshot ever performs a lock operation, try_update never issues a blocking "
+                "lock and returns after one step when the lock is held, nothing waits for a suspended holder, and a snapshot's loads are "
+                "bounded by the completed writes.",
+        "design_ref": "DESIGN.md section 6, C18",
+        "note": ATOMIC_NOTE + " nfs_voucher::get_base_time_unlocked is a thin wrapper over snapshot() and is driven by the C19 engine, not parked.",
+    },
     "C14": {
         "engine": "vt",
         "technique": "TLA+ spec checked symbolically by Apalache over the full 64-bit range (and by TLC on a scaled copy); TLC trace validation of real VouchedTime verdicts",
